@@ -322,7 +322,7 @@ impl Visitor for OpenAs<'_> {
     }
 }
 
-fn relabel_sub() -> Sub {
+pub fn relabel_sub() -> Sub {
     let mut sources = Vec::new();
     for b in 0..6usize {
         for k in KINDS {
